@@ -344,6 +344,11 @@ def run(ctx):
                                   "def by_alias(lines):\n    return [line for line in lines if rx.match(\"x\", line)]\n")
         files["src/bait_b.py"] = ("import re as pat\n\n\ndef scan_b(lines, rx):\n    out = []\n    for line in lines:\n        if rx.match(line):\n            out.append(line)\n    return out\n\n\n"
                                   "def by_alias_b(lines):\n    return [line for line in lines if pat.match(\"y\", line)]\n")
+        # three-way bait: a constant and a block shared by three files (the finding for one file lists the two other places)
+        files[".thailint.yaml"] = files[".thailint.yaml"].replace("  min_duplicate_lines: 3\n", "  min_duplicate_lines: 3\n  detect_duplicate_constants: true\n", 1)
+        for nm in ("x", "y", "z"):
+            files["src/tri_%s.py" % nm] = ("RETRY_LIMIT_MS_%d = 4217\nONLY_%s_%d = 1\n\n\ndef tri_%s_%d(alpha, beta):\n    gamma_%d = alpha + beta\n    delta_%d = gamma_%d * alpha\n"
+                                            "    epsilon_%d = delta_%d - beta\n    return epsilon_%d\n") % (i, nm.upper(), i, nm, i, i, i, i, i, i, i)
         srcs = sorted(f for f in files if not f.startswith("."))
         for cmd in ["dry", "stringly-typed", "magic-numbers", "nesting", "srp", "improper-logging", "unwrap-abuse", "file-header", "perf", "lbyl", "method-property"]:
             orders = []
